@@ -128,7 +128,7 @@ def _select_basis(grid, cfg, rng):
   return sorted(keep), False
 
 
-def run(case, M):
+def _run_grid(case, M):
   import jax  # pylint: disable=import-outside-toplevel
   import jax.numpy as jnp  # pylint: disable=import-outside-toplevel
   cfg = case['grid']
@@ -276,3 +276,53 @@ def run(case, M):
   out = grid.to_nodal(tree)
   M.close('pytree_input', np.asarray(out['a']), np.asarray(to_nodal(x)), 1e-12 if f64 else 1e-5)
   M.check('pytree_scalar_untouched', out['b'][1] == 3.5)
+
+
+# ------------------------------------------------------------------------------------ history
+# Confusable sibling grids processed one after the other in the SAME process: every grid is judged
+# by the same oracles as above, so state leaking from one Grid instance into another (a memo keyed
+# on too little: padded axis length instead of total_wavenumbers, shape without radius, ...) shows
+# up on the second grid of a sequence.  Both orders are run.
+def _sibling_sequences():
+  g = gen.grid_cfg
+  seqs = [
+      # same padded modal shape (base_shape_multiple=8 rounds L=9, 12, 16 all to 16), same radius
+      [g(8, 9, 25, 13, impl='fast', bsm=8, radius=2.0), g(8, 12, 25, 13, impl='fast', bsm=8, radius=2.0),
+       g(8, 16, 25, 16, impl='fast', bsm=8, radius=2.0)],
+      # same truncation and layout, different radius
+      [g(6, 9, 20, 10, impl='fast', bsm=4, radius=1.0), g(6, 9, 20, 10, impl='fast', bsm=4, radius=3.5)],
+      [g(6, 9, 20, 10, radius=1.0), g(6, 9, 20, 10, radius=0.4)],
+      # same total wavenumbers, different longitude wavenumbers (and vice versa)
+      [g(4, 10, 16, 10, impl='fast'), g(9, 10, 20, 10, impl='fast')],
+      [g(7, 8, 16, 9), g(7, 11, 16, 11)],
+      # same truncation, different nodes / spacing / offset
+      [g(6, 7, 13, 7), g(6, 7, 16, 13, 'equiangular'), g(6, 7, 13, 7, offset=0.9)],
+      # Real and Fast with the same truncation; padded and unpadded Fast
+      [g(7, 8, 16, 9), g(7, 8, 16, 9, impl='fast'), g(7, 8, 16, 9, impl='fast', bsm=8)],
+  ]
+  return seqs
+
+
+def sibling_cases(tier):
+  out = []
+  for i, seq in enumerate(_sibling_sequences()):
+    for order, s in (('fwd', seq), ('rev', seq[::-1])):
+      out.append({'id': f'siblings{i}-{order}', 'kind': 'siblings', 'grids': s, 'env': 'f64',
+                  'cost': 1.5 * len(s)})
+  return out
+
+
+_cases_without_siblings = cases
+
+
+def cases(tier, seed):  # pylint: disable=function-redefined
+  return _cases_without_siblings(tier, seed) + sibling_cases(tier)
+
+
+def run(case, M):
+  if case.get('kind') != 'siblings':
+    return _run_grid(case, M)
+  for j, cfg in enumerate(case['grids']):
+    sub = dict(case, grid=cfg, kind='grid')
+    _run_grid(sub, M)
+    M.cover('sibling_sequences', f"{case['id']}:{j}:{gen.grid_tag(cfg)}")
